@@ -162,6 +162,9 @@ def docPaths : List (List Nat) :=
   [[h + 44, h + 0, h + 0, 0, 0], [h + 44, h + 137, h + 0, 0, 0], [h + 44, h + 137, h + 1, 0, 0],
    [h + 44, h + 1, h + 0, 0, 0], [h + 44, h + 1, h + 1, 0, 0], [h + 44, h + 1, h + 2, 0, 0]]
 
+/-- the output files of `pubkeys -o` after a run that got as far as writing -/
+def wrote (f : Nat × Bool) : M Unit := fun w => ⟨.ok (), [], { w with pubkeyFiles := some f }⟩
+
 /-- `do_get_pubkeys` up to the gathered keys (in the order btc, rsk, mst, tbtc, trsk, tmst) -/
 def doGetPubkeys (o : Options) (keyNorm : Bytes → Option Bytes := some) : M (List Bytes) := do
   if !o.noUnlock then
@@ -173,9 +176,14 @@ def doGetPubkeys (o : Options) (keyNorm : Bytes → Option Bytes := some) : M (L
   let keys ← docPaths.mapM getPublicKey
   -- the keys are written to disk here, re-encoded uncompressed (`keyNorm`: python-ecdsa's reading of
   -- the device's answer, an uninterpreted input); an answer that is no curve point is "Error writing output"
+  -- the text file is opened (truncated) only now, after every key has been gathered
   match keys.mapM keyNorm with
-  | none => adminError
+  | none =>
+    if o.hasOutput then
+      wrote ((keys.takeWhile fun k => (keyNorm k).isSome).length, false)
+    adminError
   | some ks =>
+    if o.hasOutput then wrote (keys.length, true)
     disposeHsm
     pure ks
 
